@@ -480,7 +480,7 @@ class C11Disk(Scenario):
 SPEC = PropSpec(
     prop="C11",
     scenarios=[(1, C11Disk)],
-    runs={"quick": 3000, "thorough": 120000},
+    runs={"quick": 6000, "thorough": 200000},
     level="fault_enumeration",
     rule=("histories (create, add, close, drop-without-close, reopen with 4 path spellings, export onto a stale "
           "destination, chdir among 3 directories, kill+restart) are sampled from the seed; inside every add / close / "
